@@ -70,11 +70,13 @@ def atomIdentifiers (H : TupleHash) (m : Mol) : List (Nat × Int) :=
 
 /-! ## `LinearFingerprint._chains` -/
 
-/-- `[now + (x,) for x in bonds[now[-1]] if x not in now]` -/
-def extend (m : Mol) (now : Path) : List Path :=
+/-- `[now + (x,) for x in bonds[now[-1]] if x not in now]`; `bonds[now[-1]]` raises `KeyError` for a missing key -/
+def extend (m : Mol) (now : Path) : Except Err (List Path) :=
   match now.getLast? with
-  | none => []
-  | some last => (((m.nbrs last).map (·.1)).filter fun x => !now.contains x).map fun x => now ++ [x]
+  | none => throw .keyError   -- `now[-1]` of an empty tuple (IndexError); queue members are never empty
+  | some last => do
+    let ms ← getItem m.adj last
+    pure (((ms.map (·.1)).filter fun x => !now.contains x).map fun x => now ++ [x])
 
 /-- `frag if frag > rev else rev` with `rev = frag[::-1]` -/
 def canon (frag : Path) : Path := if tupleGt frag frag.reverse then frag else frag.reverse
@@ -84,17 +86,18 @@ def chainsLoop (m : Mol) (lo hi : Int) : Nat → List Path → List Path → Exc
   | 0, _, _ => throw .fuel
   | _ + 1, [], arr => pure arr
   | f + 1, now :: queue, arr =>
-    let var := extend m now
-    match var with
-    | [] => chainsLoop m lo hi f queue arr
-    | v0 :: _ =>
+    match extend m now with
+    | .error e => .error e
+    | .ok [] => chainsLoop m lo hi f queue arr
+    | .ok (v0 :: vs) =>
+      let var := v0 :: vs
       let queue' := if (v0.length : Int) < hi then queue ++ var else queue
       let arr' := if (v0.length : Int) ≥ lo then var.foldl (fun a frag => setAdd a (canon frag)) arr else arr
       chainsLoop m lo hi f queue' arr'
 
 def maxDeg (m : Mol) : Nat := (m.adj.map (·.2.length)).foldl max 0
 
-/-- a number of `popleft`s that always suffices (`Props.C17.chains_total`) -/
+/-- a number of `popleft`s that always suffices on a well-formed graph (`Props.C17.chains_total`) -/
 def chainsFuel (m : Mol) (hi : Int) : Nat := 1 + m.atoms.length * (maxDeg m + 1) ^ (hi.toNat)
 
 def chains (m : Mol) (lo hi : Int) : Except Err (List Path) :=
